@@ -474,7 +474,7 @@ CONC_RULE = ("CONCURRENCY: scenarios of 1-3 corpus functions (real macro expansi
              "delays injected at lock attempt/release events) running programs of cached calls, invalidate_with / invalidate_all_with, tag/event/dependency/name invalidations, stats queries and clock steps. "
              "The serial scheduler passes a baton at every lock attempt/release (hooked lock_api: parking_lot and DashMap shard locks), body entry and API-call boundary, with switch probabilities 1.0/0.4/0.15/0.06; "
              "a deadlock is 'some thread unfinished and none enabled' (no timing involved). At quiescence: values, limit/max_memory bounds, unknown keys, eviction/expiry/invalidation probes, a sequential probe history, "
-             "hit+miss conservation, and the execution history are checked. Distinct = distinct (function set, schedule trace hash). ")
+             "hit+miss conservation, and the execution history are checked. Distinct = distinct (function set, thread programs, observed interleaving: the serial scheduler's sequence of thread choices, or in free-running mode the order in which the threads' lock acquisitions reached the monitor). ")
 
 L1_RULE = ("generated lookup/store/advance histories (40-200 ops + fill probe, re-stores of live keys with new values, time steps aimed at ttl-1ns / ttl / ttl+1ns) "
            "for every configuration in focus out of the product flavour(3) x policy(6) x limit{none,1..4} x ttl{none,1..3} x max_memory{none,120,200,400} x frequency_weight(6, TLRU), plus 420 configurations with ttls of 2^32..u64::MAX seconds (never expire), "
